@@ -104,6 +104,7 @@ func loadProgram() (*Program, error) {
 // ---------- running one harness ----------
 
 type HarnessResult struct {
+	Tier       int // tier the harness ran at (cross-listed harnesses always run at the quick bounds)
 	Name       string
 	Paths      int
 	Ends       map[string]int
@@ -130,17 +131,17 @@ type HarnessResult struct {
 }
 
 type RunOpts struct {
-	workers  int
-	maxPaths int
-	maxSteps int
-	tier     int
-	seed     int64
-	solver   string
-	timeout  int
-	verbose  bool
-	prefix   []Decision // run a single path (replay)
-	witnesses int       // number of completed paths per harness for which a model is extracted
-	fixed    *modelFile // all inputs fixed to these values (concrete re-execution)
+	workers   int
+	maxPaths  int
+	maxSteps  int
+	tier      int
+	seed      int64
+	solver    string
+	timeout   int
+	verbose   bool
+	prefix    []Decision // run a single path (replay)
+	witnesses int        // number of completed paths per harness for which a model is extracted
+	fixed     *modelFile // all inputs fixed to these values (concrete re-execution)
 }
 
 func defaultOpts() RunOpts {
